@@ -281,3 +281,36 @@ func vh_C14_RestartWhileRunning() {
 	vfAssert("caller-got-every-answer-in-order", len(got) == 2 && got[0] == y1 && got[1] == y2)
 	vfReach("end")
 }
+
+// YieldFromIO returns the IO's value whatever handlers the IO carries - none, ObserveOn only, SubscribeOn only, two
+// different ones, or the SAME handler for both (where a naive hand-over from the handler to itself would never finish)
+func vh_C14_YieldFromIOHandlers() {
+	h1, h2 := Handler.New(), Handler.New()
+	x := vfInt("x")
+	io := MonadIONewGenerics(func() int { return vfFn("IO", x) })
+	switch vfChoose("io-handlers", 5) {
+	case 1:
+		io = io.ObserveOn(h1)
+	case 2:
+		io = io.SubscribeOn(h2)
+	case 3:
+		io = io.ObserveOn(h1).SubscribeOn(h2)
+	case 4:
+		io = io.ObserveOn(h1).SubscribeOn(h1)
+	}
+	var got int
+	finished := false
+	var c *CorDef[int]
+	c = CorNewGenerics[int](func() {
+		got = c.YieldFromIO(io)
+		finished = true
+	})
+	if !vfNoPanic("nopanic", func() { c.Start(); vfQuiesce() }) {
+		return
+	}
+	vfAssert("yieldfromio-returns", finished)
+	if finished {
+		vfAssert("yieldfromio-returns-the-io-value", got == vfFn("IO", x))
+	}
+	vfReach("end")
+}
